@@ -42,6 +42,8 @@ type addrExpect struct {
 	target    string // ip:port or @name the connection must go to
 	srvHost   string // where the fake server listens
 	srvPort   int
+	urlHost   string // where the URL alone would lead
+	urlPort   int
 	sni       string
 	httpHost  string
 	urlHostIP bool
@@ -90,6 +92,7 @@ func expectFor(c plan.AddrCase) addrExpect {
 		e.network = "udp"
 	}
 	e.srvHost, e.srvPort = hostIP, port
+	e.urlHost, e.urlPort = hostIP, port
 	d4 := fmt.Sprintf("10.8.%d.99", i)
 	d6 := fmt.Sprintf("fd00:8:%x::99", i)
 	dname := fmt.Sprintf("dial%d.example.test", i) // resolves to d4
@@ -169,6 +172,10 @@ func RunAddr(t *testing.T, p *plan.Plan, keepLog int) *Result {
 						kind = "udp"
 					}
 					spec := plan.UpstreamSpec{Tag: fmt.Sprintf("a%d", i), Addr: e.url, DialAddr: e.dialAddr, Kind: kind, Host: e.srvHost, Port: e.srvPort, TLS: "good", UseCA: true}
+					if c.DialDown {
+						// the server is where the URL points; nothing listens at the override
+						spec.Host, spec.Port = e.urlHost, e.urlPort
+					}
 					tcTok := fmt.Sprintf("tc%d", i)
 					srv := peers.NewUpServer(s, w, p.Seed, spec, map[string]*plan.TokenSpec{
 						tcTok: {Ans: plan.AnswerSpec{NAn: 1, TTLs: []uint32{60}, Shape: "plain"}, Acts: []plan.UpAction{{Kind: "truncate_udp", DelayUs: 200}}},
@@ -217,7 +224,16 @@ func RunAddr(t *testing.T, p *plan.Plan, keepLog int) *Result {
 							s.Fail("C17", "dial-target", "%s: dialled %s %q (resolved %q), want %s %s", name, d.Network, d.Address, d.Resolved, e.network, e.target)
 						}
 					}
-					if xerr != nil {
+					if c.DialDown {
+						s.Probe("c17a_dial_down_checked")
+						if xerr == nil {
+							s.Fail("C17", "override-bypassed", "%s: nothing listens at the dial_addr target %s, yet the exchange succeeded", name, e.target)
+						}
+						for _, q := range srv.QueriesCopy() {
+							s.Fail("C17", "override-bypassed", "%s: the server at the URL's own address %s:%d received a query (token %s) although dial_addr points elsewhere", name, e.urlHost, e.urlPort, q.Token)
+							break
+						}
+					} else if xerr != nil {
 						s.Fail("C17", "exchange-failed", "%s: exchange failed against a server at %s %s presenting a valid certificate: %v", name, e.network, e.target, xerr)
 					}
 					if kind == "udp" && xerr == nil {
